@@ -7,6 +7,7 @@ pub mod c07;
 pub mod c08;
 pub mod c09;
 pub mod c11;
+pub mod c14;
 pub mod c15;
 pub mod c19;
 pub mod c20;
